@@ -22,6 +22,18 @@ type ScheduleScenario struct {
 	Make  func() vsched.Scenario
 	// MaxExecs caps the exploration (0 = none); hitting it is reported.
 	MaxExecs int64
+	// FreeLimit bounds the number of non-default cost-free choices (0 = unlimited).
+	FreeLimit int
+}
+
+// ExploreScenarioList explores scenarios that were already distributed over
+// the shards by the caller (each scenario is explored completely by one shard).
+func (r *Run) ExploreScenarioList(scs []ScheduleScenario) {
+	shard, of := r.Shard, r.Of
+	r.Shard, r.Of = 0, 1
+	r.quietScenarios = len(scs) > 50
+	r.ExploreSchedules(scs)
+	r.Shard, r.Of = shard, of
 }
 
 // ExploreSchedules explores every scenario (iterating the pre-emption bound
@@ -65,7 +77,7 @@ func (r *Run) ExploreSchedules(scs []ScheduleScenario) {
 				continue
 			}
 			v0 := r.Violations()
-			e := &vsched.Explorer{Bound: b, Opt: sc.Opt, Shard: r.Shard, Shards: r.Of, MaxExecs: sc.MaxExecs}
+			e := &vsched.Explorer{Bound: b, Opt: sc.Opt, Shard: r.Shard, Shards: r.Of, MaxExecs: sc.MaxExecs, FreeLimit: sc.FreeLimit}
 			// a new (unlisted) violation ends the exploration of this scenario: the
 			// check fails anyway and broken code may make every execution slow
 			e.Stop = func() bool { return r.Violations() > v0 }
@@ -119,13 +131,21 @@ func (r *Run) ExploreSchedules(scs []ScheduleScenario) {
 				break
 			}
 		}
-		r.Bound(sc.Name+".preemption_bound_completed", completed)
+		if !r.quietScenarios {
+			r.Bound(sc.Name+".preemption_bound_completed", completed)
+		} else if completed != sc.Bound {
+			r.Bound(sc.Name+".preemption_bound_completed", completed)
+		}
 		r.Count("schedules", total)
 		r.MaxCount("max_points", int64(maxPoints))
 		r.MaxCount("max_threads", int64(maxThreads))
 		for k, v := range outcomes {
 			r.mu.Lock()
-			r.outcomes[sc.Name+":"+k] += v
+			if r.quietScenarios {
+				r.outcomes[k] += v
+			} else {
+				r.outcomes[sc.Name+":"+k] += v
+			}
 			r.mu.Unlock()
 		}
 		r.Sample(map[string]any{"scenario": sc.Name, "bound_completed": completed, "executions": total, "max_points": maxPoints, "threads": maxThreads})
